@@ -373,7 +373,7 @@ hdf_get_sdc(NC *handle, uint16 tmpRef, NC_attr **tmp_attr, int *curr_attr)
     }
 
     if (Hgetelement(handle->hdf_file, DFTAG_SDC, tmpRef, coordbuf) == FAIL) {
-        free(coordbuf);
+        /* coordbuf is freed by the error cleanup at done: */
         HGOTO_ERROR(DFE_GETELEM, DFE_GETELEM);
     }
 
